@@ -399,6 +399,7 @@ def compare_soup_geom(case, mo, io, stats):
     return None, rel, dict(iid=iid, tri=tri, al=al, d2=d2, rec=math.sqrt(float(dist2(p, h))), d=f[3])
 
 # ------------------------------------------------------------------ main
+ORACLE = {}
 def compare_triangle(ck, case, kind, mo, io, stats):
     m = parse_tri_model(mo); i = parse_tri_impl(io)
     p, a, b, c = case_points(case)
@@ -420,7 +421,13 @@ def compare_triangle(ck, case, kind, mo, io, stats):
     al = [Fr(x) for x in i["al"]]
     if min(i["al"]) < 0 or abs(sum(i["al"]) - 1.0) > 1e-12:
         return "dist_point_triangle: weights are not non-negative with sum one: %r" % (i["al"],)
-    ob = closest_bary(p, a, b, c); od2 = dist2(p, recon(ob, a, b, c))
+    ow = [int(x) for x in ORACLE.get(case, "7").split()]
+    pyd2 = dist2(p, recon(closest_bary(p, a, b, c), a, b, c))
+    if ow[0] != 0:
+        stats["oracle_none"] = stats.get("oracle_none", 0) + 1; od2 = pyd2
+    else:
+        od2 = Q(ow[7], ow[8])
+        if od2 != pyd2: stats["oracle_disagree_python"] = stats.get("oracle_disagree_python", 0) + 1
     id2 = dist2(p, recon(al, a, b, c))
     stats["branch"][("in" if m["ins"] else "clamp%d" % sum(1 for x in m["al"] if x == 0))] = stats["branch"].get(("in" if m["ins"] else "clamp%d" % sum(1 for x in m["al"] if x == 0)), 0) + 1
     if float(id2 - od2) > 1e-9 * max(1.0, float(od2)):
@@ -487,6 +494,10 @@ def main(replay=None):
             cases.append(geom_line(ginfo[g], loaded)); kinds.append("geom:" + ginfo[g]["name"].split(" ")[0])
     mo = core.run_model(cases)
     rc, io, err = core.run_harness(hb, cases, ck.workdir)
+    # the Gallina oracle (coq/Geom/ClosestOracleModel.v, soundness theorem closest_oracle_sound) on every triangle case
+    tri_idx = [k for k, c in enumerate(cases) if c.split()[1] == "1"]
+    oo = core.run_model([cases[k].replace("c09 1 ", "c09 9 ", 1) for k in tri_idx])
+    ORACLE.clear(); ORACLE.update({cases[k]: o for k, o in zip(tri_idx, oo)})
     stats = dict(errors=0, fragile_boundary=0, branch={}, not_nearest=[], stale=[])
     dist = {}; mism = 0
     for cn, (c, k, m, i) in enumerate(zip(cases, kinds, mo, io)):
@@ -594,11 +605,11 @@ def main(replay=None):
                   rule="distinct case lines; triangle cases are aimed at the ten leaves of dpc (interior / 3 edges / vertices via t<0 and t>1), obtuse and thin triangles, points on the surface, degenerate triangles (om_error)",
                   samples=cases[len(cases) // 2:len(cases) // 2 + 3], op_distribution=dist,
                   branch_distribution=stats["branch"], error_outcomes=stats["errors"],
-                  fragile_boundary_cases=stats["fragile_boundary"],
+                  fragile_boundary_cases=stats["fragile_boundary"], gallina_oracle_returned_nothing=stats.get('oracle_none', 0), gallina_oracle_vs_python_oracle_disagreements=stats.get('oracle_disagree_python', 0),
                   not_nearest_cases_all_in_refuted_region=len(stats["not_nearest"]),
                   correspondence_mismatches=mism, geometry_electrodes=stats.get('geom_electrodes', 0), soup_geometry_cases=stats.get('soup_geom', 0), stale_weight_instances_explained_by_model=len(stats['stale']), interface_rounding_ties=stats.get('rounding_ties', 0), traces_validated_against_impl=len(cases))
     ck.cov["trusted_base"] += ["hand-written Gallina model coq/Geom/{Danielsson,SensorsModel}.v tied by differential runs (harness/h_c09.cpp vs extracted extract/omm, exact rational instance)",
-                               "extraction: ExtrOcamlBasic only", "Python Fraction closest-point oracle (Ericson's Voronoi classification) in checks/c09.py"]
+                               "extraction: ExtrOcamlBasic only", "reference of the nearest-point search: Gallina certifying oracle coq/Geom/ClosestOracleModel.v (sound by theorem closest_oracle_sound); the Python Fraction oracle is kept only as a cross-check and for tie classification"]
     ck.assumptions += ["distances are compared squared in the model (sqrt monotone)",
                        "weights and distances: rational model value vs double within 1e-12 (divisions round); decisions exact"]
     return ck.finish()
